@@ -620,6 +620,75 @@ fn scoping_part(rep: &mut Report, pending: &mut Vec<Pending>) {
     }
 }
 
+/// Macros supplied by the caller (`BindContext::bind_macro`), also under the name of a built-in one, are bindings
+/// like any other: the one visible at the top level is the one visible inside every body.  Implementation only.
+fn caller_macros_part(rep: &mut Report) {
+    use rscel::{BindContext, CelContext, RsCelMacro};
+    // a stricter coalesce (skips null and empty strings), a `has` that answers 42, and a macro under a fresh name
+    let strict_coalesce: &RsCelMacro = &|ctx, _this, args| {
+        for arg in args.iter() {
+            match ctx.run_raw(arg, true) {
+                Ok(CelValue::Null) => {}
+                Ok(CelValue::String(s)) if s.is_empty() => {}
+                Ok(val) => return val,
+                Err(_) => {}
+            }
+        }
+        CelValue::from_null()
+    };
+    let has42: &RsCelMacro = &|_ctx, _this, _args| CelValue::from_int(42);
+    let twice: &RsCelMacro = &|ctx, _this, args| match args.first().map(|a| ctx.run_raw(a, true)) {
+        Some(Ok(v)) => v.clone() + v,
+        Some(Err(e)) => CelValue::from_err(e),
+        None => CelValue::from_null(),
+    };
+    let obs = crate::report::guarded(move || {
+        let mut b = BindContext::new();
+        b.bind_macro("coalesce", strict_coalesce);
+        b.bind_macro("has", has42);
+        b.bind_macro("twice", twice);
+        b.bind_param("names", CelValue::List(vec![CelValue::String("ann".into()), CelValue::String("".into()), CelValue::String("bob".into())]));
+        b.bind_param("e", CelValue::String("".into()));
+        b.bind_param("x", CelValue::String("outer".into()));
+        let cases: [(&str, &str); 12] = [
+            ("coalesce(e, 'anon')", "s:616e6f6e"),
+            ("has(zz)", "i:42"),
+            ("twice(e + 'ab')", "s:61626162"),
+            ("names.map(x, coalesce(x, 'anon'))", "l:3 s:616e6e s:616e6f6e s:626f62"),
+            ("names.map(x, twice(x))", "l:3 s:616e6e616e6e s:_ s:626f62626f62"),
+            ("names.map(x, has(zz))", "l:3 i:42 i:42 i:42"),
+            ("names.all(x, coalesce(x, 'anon') != e)", "b:1"),
+            ("names.exists(x, coalesce(x, 'anon') == 'anon')", "b:1"),
+            ("names.exists_one(x, has(zz) == 42 && x == e)", "b:1"),
+            ("names.filter(x, coalesce(x, 'anon') == 'anon')", "l:1 s:_"),
+            ("[names].map(x, x.map(x, coalesce(x, 'anon')))", "l:1 l:3 s:616e6e s:616e6f6e s:626f62"),
+            ("names.reduce(acc, x, acc + coalesce(x, '?'), e)", "s:616e6e3f626f62"),
+        ];
+        let mut out = Vec::new();
+        for (src, want) in cases.iter() {
+            let mut ctx = CelContext::new();
+            let got = match ctx.add_program_str("main", src) {
+                Err(e) => format!("e:{}", crate::wire::err_kind(&e)),
+                Ok(_) => crate::wire::show_result(&ctx.exec("main", &b)),
+            };
+            out.push(format!("{}\t{}\t{}", src, got, want));
+        }
+        out.join("\n")
+    });
+    for line in obs.split('\n') {
+        let f: Vec<&str> = line.split('\t').collect();
+        rep.count(Some(line));
+        rep.bump("family:caller macros visible in bodies");
+        if f.len() != 3 {
+            rep.oracle_fail("caller macros", line, "results", "evaluation with caller macros panicked");
+            continue;
+        }
+        if f[1] != f[2] {
+            rep.oracle_fail(&format!("{}  [bind_macro: coalesce (skips '' too), has (always 42), twice]", f[0]), f[1], f[2], "a macro bound by the caller is visible in comprehension bodies like every other binding");
+        }
+    }
+}
+
 // ---------------------------------------------------------------------------------------------
 // Part 5: maps — filter / map range over the keys in one fixed (ascending) order
 
@@ -797,6 +866,7 @@ pub fn run(opts: &Opts) -> Report {
     generated_part(&mut rep, &mut pending, opts);
     lap("generated");
     scoping_part(&mut rep, &mut pending);
+    caller_macros_part(&mut rep);
     maps_part(&mut rep, &mut pending, opts);
     lap("maps");
     odd_part(&mut rep, &mut pending, opts);
